@@ -68,7 +68,8 @@ CLAIMS = {
                  "polynomial exactness to the nominal degree."),
     "C09": mixed("PROVED for every number of points and every strictly sorted grid: GlobalTrapezoidalGrid.compute_weights returns for each point the exact integral of its "
                  "(modified) hat function (standard; modified n=3, n=4, n>=5), non-negative in the standard case; induction lemma: sum w_i f_i == integral of the piecewise-linear "
-                 "interpolant; linear exactness; end-weight lemma for the modified basis. BOUNDED: Simpson/high-order/Lagrange/B-spline global rules on all refinement trees of depth<=4."),
+                 "interpolant; linear exactness; end-weight lemma for the modified basis; GlobalGrid.set_grid (1-2 dimensions, any number of points): the grid keeps the handed-in points with the weights computed for exactly "
+                 "these points, one weight and level per kept point, boundary off drops exactly the first and last point with their weights and levels. BOUNDED: Simpson/high-order/Lagrange/B-spline global rules on all refinement trees of depth<=4."),
     "C10": bounded("BOUNDED (deciding): hierarchise-then-interpolate is the identity on every grid, polynomial reproduction, derivatives/integrals of basis functions, for local and "
                    "global Lagrange/B-spline grids on refinement trees. PROVED kernel: LagrangeBasis is 1 at its own knot and 0 at every other knot for ANY number of distinct knots, any index "
                    "(loop invariants over the ghost product through the real constructor and __call__; induction lemmas prod-zero, prod-inverse), and additionally by loop-free "
